@@ -4,6 +4,7 @@ import (
 	"fmt"
 	"go/token"
 	"go/types"
+	"sort"
 	"strings"
 
 	"golang.org/x/tools/go/ssa"
@@ -239,7 +240,16 @@ func ruleBoundsSign(r *Report) {
 			want = "--RRR"
 		}
 		got := signProfile(*cmp, nilReturns(fn), nil)
-		if got == want {
+		// no iterator is handed out on a path that never compared the bounds (an "empty range" short cut in front of it)
+		unchecked := ""
+		for _, rs := range nilReturns(fn) {
+			if rs.Block != cmp.Block && !cmp.Block.Dominates(rs.Block) {
+				unchecked = r.P.Pos(rs.Pos())
+			}
+		}
+		if unchecked != "" {
+			r.Bad(rule, key, cmp.Pos(), "the success return at "+unchecked+" is reachable without the bounds having been compared: an inverted range is accepted on that path (e.g. when nothing lies at or after the lower bound, or on an empty map)")
+		} else if got == want {
 			r.OK(rule, key, cmp.Pos(), "iterator built for comparator results "+got)
 		} else {
 			r.Bad(rule, key, cmp.Pos(), fmt.Sprintf("an iterator is returned for comparator results %s (expected %s): inverted ranges are accepted or equal bounds rejected", got, want))
@@ -479,6 +489,9 @@ func ruleWrap(r *Report) {
 			key := ef0uniq(rule + "/" + FuncKey(fn))
 			if guardedSub(s, bo) {
 				r.OK(rule, key, bo.Pos(), "guarded unsigned subtraction")
+			} else if k, isK := constInt(bo.Y); isK && k == 1 && !reachableAssuming(fn, bo.X, 0, s.Block) {
+				// the guard is a test correlated with another condition (`if !found && x == 0 { return }` … `if !found { x-1 }`)
+				r.OK(rule, key, bo.Pos(), "the subtraction is unreachable with the minuend equal to zero (path-sensitive over repeated conditions)")
 			} else {
 				r.Bad(rule, key, bo.Pos(), "unsigned subtraction without a dominating guard: it wraps to a huge offset (e.g. a range whose upper bound precedes the first key covers the whole table)")
 			}
@@ -486,6 +499,77 @@ func ruleWrap(r *Report) {
 	}
 	if n == 0 {
 		r.Missing(rule, rule+"/sites", "no unsigned subtraction found in the index code (rule instance vanished)")
+	}
+	// the disk index' range: when the upper bound is absent and nothing precedes it (the search answers offset 0, not
+	// found) the range is empty — that case must not run into the general iterator with end offset 0, which seeks once and
+	// returns the first entry
+	if fn := p.Func("sstables.DiskKeyIndex.IteratorBetween"); fn != nil {
+		key := rule + "/sstables.DiskKeyIndex.IteratorBetween/upper-before-first-is-empty"
+		var hi *ssa.Call
+		for _, s := range CallsIn(fn, Suffix("DiskKeyIndex.binarySearch")) {
+			a := s.Call().Common().Args
+			if po := paramOrigin(a[len(a)-1]); po != nil && strings.Contains(strings.ToLower(po.Name()), "high") {
+				hi = s.Instr.(*ssa.Call)
+			}
+		}
+		var off, found ssa.Value
+		if hi != nil {
+			for _, rf := range *hi.Referrers() {
+				if ex, ok := rf.(*ssa.Extract); ok {
+					switch ex.Index {
+					case 0:
+						off = ex
+					case 2:
+						found = ex
+					}
+				}
+			}
+		}
+		if hi == nil || off == nil || found == nil {
+			r.Unk(rule, key, fn.Pos(), "the search for the upper bound (offset, found) was not recognised")
+		} else {
+			// explore with off == 0 and found == false
+			seen := map[*ssa.BasicBlock]bool{}
+			var work []*ssa.BasicBlock
+			push := func(b *ssa.BasicBlock) {
+				if !seen[b] {
+					seen[b] = true
+					work = append(work, b)
+				}
+			}
+			push(hi.Block())
+			for len(work) > 0 {
+				b := work[len(work)-1]
+				work = work[:len(work)-1]
+				if t, ok := branchOn(b, off, 0); ok {
+					push(t)
+					continue
+				}
+				if cnd, tS, fS, _, _, ok := effCond(b); ok && cnd == found {
+					_ = tS
+					push(fS)
+					continue
+				}
+				for _, su := range b.Succs {
+					push(su)
+				}
+			}
+			bad := ""
+			for _, s := range CallsIn(fn, Suffix("DiskKeyIndex.newIterator")) {
+				if !seen[s.Block] {
+					continue
+				}
+				a := s.Call().Common().Args
+				if _, isC := a[len(a)-1].(*ssa.Const); !isC {
+					bad = r.P.Pos(s.Pos())
+				}
+			}
+			if bad != "" {
+				r.Bad(rule, key, hi.Pos(), "with the upper bound absent and sorting before the first entry (offset 0, not found) the general iterator at "+bad+" is reached with end offset 0: ScanRange(lo, hi) with hi below the smallest key returns the smallest key")
+			} else {
+				r.OK(rule, key, hi.Pos(), "an upper bound before the first entry yields the empty iterator")
+			}
+		}
 	}
 }
 
@@ -975,6 +1059,39 @@ func ruleMapLookupVerified(r *Report) {
 					}) {
 						g = true
 					}
+					// … or a helper is asked that looks at the length of the probe it is handed
+					valueDependsOn(cnd, func(x ssa.Value) bool {
+						c, isC := x.(*ssa.Call)
+						if !isC {
+							return false
+						}
+						sc := genericBody(c.Call.StaticCallee())
+						if sc == nil || !inModule(sc) || len(sc.Blocks) == 0 {
+							return false
+						}
+						for i, a := range c.Call.Args {
+							po := paramOrigin(a)
+							if po == nil || po.Name() != "key" || po.Parent() != fn || i >= len(sc.Params) {
+								continue
+							}
+							hp := sc.Params[i]
+							for _, rs := range returnsOf(sc) {
+								for _, rv := range rs.Instr.(*ssa.Return).Results {
+									if valueDependsOn(rv, func(y ssa.Value) bool {
+										lc, isL := y.(*ssa.Call)
+										if !isL {
+											return false
+										}
+										bi, isB := lc.Call.Value.(*ssa.Builtin)
+										return isB && bi.Name() == "len" && paramOrigin(lc.Call.Args[0]) == hp
+									}) {
+										g = true
+									}
+								}
+							}
+						}
+						return false
+					})
 				}
 				if !g {
 					guarded = false
@@ -1015,4 +1132,71 @@ func ruleDiskIndexBoundaries(r *Report) {
 			r.Bad(rule, key, seeks[0].Pos(), "entries are located by scanning for the record marker from an offset that is not known to be a record boundary; with the disk index a key built as \"c\" + 5000×'x' + <bytes of a valid index record for key \"zzzz\"> makes Contains/Get of the written keys \"d\" and \"e\" report not found, Get(\"zzzz\") succeed and ScanStartingAt(\"a\") return a, b, c, zzzz, d, e (the other three loaders answer correctly on the same table)")
 		}
 	}
+}
+
+// reachableAssuming explores fn from its entry with the value x fixed to val: comparisons of x with constants are decided,
+// every other condition is explored both ways but consistently — once a condition value has been taken as true (false)
+// on a path, a later test of the same value on that path goes the same way. It answers whether target can be reached.
+func reachableAssuming(fn *ssa.Function, x ssa.Value, val int64, target *ssa.BasicBlock) bool {
+	type state struct {
+		b   *ssa.BasicBlock
+		dec string
+	}
+	seen := map[state]bool{}
+	var walk func(b *ssa.BasicBlock, dec map[ssa.Value]bool, depth int) bool
+	encode := func(dec map[ssa.Value]bool) string {
+		var parts []string
+		for v, t := range dec {
+			parts = append(parts, fmt.Sprintf("%s=%v", v.Name(), t))
+		}
+		sort.Strings(parts)
+		return strings.Join(parts, ",")
+	}
+	walk = func(b *ssa.BasicBlock, dec map[ssa.Value]bool, depth int) bool {
+		if b == target {
+			return true
+		}
+		st := state{b, encode(dec)}
+		if seen[st] || depth > 400 {
+			return false
+		}
+		seen[st] = true
+		// x is defined somewhere: before its definition nothing is decided by it, which is conservative (both ways)
+		if t, ok := branchOn(b, x, val); ok {
+			return walk(t, dec, depth+1)
+		}
+		if cnd, tS, fS, tE, fE, ok := effCond(b); ok && tE && fE {
+			if d, known := dec[cnd]; known {
+				if d {
+					return walk(tS, dec, depth+1)
+				}
+				return walk(fS, dec, depth+1)
+			}
+			for _, way := range []bool{true, false} {
+				nd := map[ssa.Value]bool{}
+				for k2, v2 := range dec {
+					nd[k2] = v2
+				}
+				nd[cnd] = way
+				nxt := fS
+				if way {
+					nxt = tS
+				}
+				if walk(nxt, nd, depth+1) {
+					return true
+				}
+			}
+			return false
+		}
+		for _, su := range b.Succs {
+			if walk(su, dec, depth+1) {
+				return true
+			}
+		}
+		return false
+	}
+	if len(fn.Blocks) == 0 {
+		return true
+	}
+	return walk(fn.Blocks[0], map[ssa.Value]bool{}, 0)
 }
